@@ -447,7 +447,9 @@ func pbCliDeserialize(pkt *pbx.ClientMsg) *ClientComMessage {
 			Topic: set.GetTopic(),
 		}
 		if sq := set.GetQuery(); sq != nil {
-			msg.Set.MsgSetQuery = *pbSetQueryDeserialize(sq)
+			if q := pbSetQueryDeserialize(sq); q != nil {
+				msg.Set.MsgSetQuery = *q
+			}
 		}
 	} else if del := pkt.GetDel(); del != nil {
 		msg.Del = &MsgClientDel{
